@@ -49,6 +49,7 @@ class Ref:
         self.defaults = []       # (node, kwargs)
         self.undecided = []
         self.input_kwargs = {'x': ('IN', run, val)}
+        extra_kwargs = extra_kwargs or prog.get('extra_inputs')
         if extra_kwargs:
             self.input_kwargs.update(extra_kwargs)
         self.last_kwargs = {}
